@@ -47,6 +47,15 @@ from pyvc import oracles_a as _oa  # noqa: E402
 # C12: quoted names whose content itself begins / ends with a doubled (escaped) quote
 _oc._C12_NAMES += [('""hi""', ('"',)), ('say ""hi""', ('"',)), ('""x', ('"',)), ('``tbl``', ('`',)), ('t``', ('`',))]
 
+# C12: references inside a subquery / CTE that is itself named with AS (the grouping passes reach them through an
+# Identifier node), and aliases spelled exactly like the name they rename
+_oc._C12_CONTEXTS.update({
+    'subq_as': 'select * from (select {R} from t1 u) as d',
+    'subq_as_from': 'select * from (select 1 from {R}) as d',
+    'cte': 'with c as (select {R} from t) select * from c',
+    'cte_from': 'with c as (select 1 from {R}) select 1',
+})
+
 _base_oracle_C12, _base_cases_C12 = oracle_C12, cases_C12  # noqa: F821
 
 
@@ -61,6 +70,18 @@ def cases_C12(tier, seed):  # noqa: F811
                         ref = qq + q + qq + dot + nq + n + nq + alias
                         yield ('wsdot', tmpl % ref, qq + q + qq + dot + nq + n + nq, q, n,
                                alias.split()[-1].strip('"'))
+    for ctx in ('sel1', 'sel_mid:0', 'from1', 'join', 'update', 'subquery', 'subq_as', 'cte'):
+        for name, quotes in _oc._C12_NAMES[:8]:
+            for nq in quotes:
+                for qual, qq in _oc._C12_QUALS:
+                    for akind in ('as', 'bare'):
+                        yield (ctx, qual, qq, name, nq, akind, name, nq, ' ')       # alias == name
+    for ctx in ('subq_as', 'subq_as_from', 'cte', 'cte_from'):
+        for name, quotes in _oc._C12_NAMES:
+            for nq in quotes:
+                for qual, qq in _oc._C12_QUALS:
+                    for akind, alias, aq in _oc._C12_ALIASES:
+                        yield (ctx, qual, qq, name, nq, akind, alias, aq, ' ')
     yield from _base_cases_C12(tier, seed)
 
 
@@ -144,6 +165,14 @@ def cases_C13(tier, seed):  # noqa: F811
         cols = ', '.join('c%d' % i for i in range(n))
         yield ('long', 'select %s from t where a = 1 and b < 2' % cols, ('Comparison', 2))
         yield ('long', 'select %s, f(p, q) from t where d > DATE \'2020-01-01\'' % cols, ('Comparison', 1))
+    # list items that the lexer types as keywords (column names such as type / owner / year, TRUE, CURRENT_DATE ...)
+    for kwitem in (('type',), ('owner',), ('year',), ('level',), ('TRUE',), ('false',), ('CURRENT_DATE',), ('user',),
+                   ('data',), ('role',), ('NULL',)):
+        for pos in (0, 1, 2):
+            items = [('a',), ('b', 'AS', 'x'), ('c',)]
+            items[pos] = kwitem
+            for prefix, rest in ((('SELECT',), ('FROM', 't')), (('SELECT', '*', 'FROM', '(', 'SELECT'), ('FROM', 't', ')', 's'))):
+                yield ('idlist', prefix, tuple(items), rest, ' ')
     yield from _base_cases_C13(tier, seed)
 
 
@@ -245,3 +274,32 @@ def oracle_C17(case):  # noqa: F811
             return {'what': 'following-statements-mis-split', 'input': script, 'observed': got, 'expected': want}
         return None
     return _base_oracle_C17(case)
+
+
+# ---- quantifier of C06 / C08 / C10: "every script of the verification grammar".  The domains also contain token soups
+# (robustness).  A soup whose own tokenisation depends on a blank being absent (`like:p`) is outside that quantifier for the
+# "no two tokens fused or split" clause: any filter that inserts whitespace legitimately changes how it lexes.
+def _outside_quantifier(case, failure):
+    from pyvc.findings import separator_stable
+    what = str((failure or {}).get('what', ''))
+    if 'fused-or-split' in what or what.endswith(':changed') or what == 'changed' or 'not-idempotent' in what:
+        try:
+            return not separator_stable(case[0])
+        except Exception:       # noqa
+            return False
+    return False
+
+
+def _quantified(orc):
+    def wrapped(case):
+        r = orc(case)
+        if r is not None and _outside_quantifier(case, r):
+            return None
+        return r
+    wrapped.__name__ = orc.__name__
+    return wrapped
+
+
+oracle_C06 = _quantified(oracle_C06)  # noqa: F821
+oracle_C08 = _quantified(oracle_C08)  # noqa: F821
+oracle_C10 = _quantified(oracle_C10)  # noqa: F821
